@@ -1085,8 +1085,28 @@ func (z *Decimal) SetFloat(x *big.Float) *Decimal {
 	fprec := f.MinPrec()
 	f.SetMantExp(f, int(fprec))
 	i, _ := f.Int(nil)
-	z.SetInt(i)
 	exp2 -= int64(fprec)
+	// x = i × 2**exp2
+	if lim := 4*int64(z.prec) + 64; -lim <= exp2 && exp2 <= lim {
+		// The decimal expansion of x is short enough that it might fit z.prec
+		// digits, in which case it must be stored exactly: build the integer
+		// i×2**exp2, or i×5**-exp2 to be scaled by 10**exp2, and round once.
+		// (The naive scaling below rounds several times: SetFloat(30) at
+		// precision 1 gave 40 under AwayFromZero.)
+		if exp2 > 0 {
+			i.Lsh(i, uint(exp2))
+		} else if exp2 < 0 {
+			i.Mul(i, new(big.Int).Exp(big.NewInt(5), big.NewInt(-exp2), nil))
+		}
+		z.SetInt(i)
+		if exp2 < 0 {
+			acc := z.acc
+			z.SetMantExp(z, int(exp2))
+			z.acc = acc
+		}
+		return z
+	}
+	z.SetInt(i)
 	if exp2 != 0 {
 		// multiply / divide by 2**exp with increased precision
 		z.prec++
